@@ -50,3 +50,12 @@ def putBE32 (l : List Int) (i : Nat) (v : Int) : List Int :=
   (((l.set i (v / 16777216 % 256)).set (i + 1) (v / 65536 % 256)).set (i + 2) (v / 256 % 256)).set (i + 3) (v % 256)
 
 end LLRP.GoInt
+
+/-- closes goals of the form `f x = true ↔ <linear condition>` (or conjunctions of them) after `unfold f`, for a translated
+Boolean function built from comparisons, `&&`, `||`, `!` and `if`: independent of how the source orders or nests its
+conditions, so that an equivalent rewrite of the source re-proves without editing the proof -/
+macro "go_bool_arith" : tactic => `(tactic| (
+  (try simp only [Bool.and_eq_true, Bool.or_eq_true, decide_eq_true_eq, Bool.not_eq_true', Bool.and_eq_false_iff,
+    Bool.or_eq_false_iff, decide_eq_false_iff_not, Bool.not_eq_eq_eq_not, Bool.not_true, Bool.not_false,
+    Bool.false_eq_true, Bool.true_eq_false, ite_eq_left_iff, ite_eq_right_iff]);
+  (repeat' split) <;> (try simp_all) <;> (try omega)))
